@@ -61,3 +61,49 @@ func TestC14Race(t *testing.T) {
 		}
 	})
 }
+
+// A working set larger than the inode cache: several clients look at 160 files in different orders (every request
+// a cache miss that evicts somebody else's entry) while others write, truncate and read the shared files.
+func TestC14BigSet(t *testing.T) {
+	rapid.Check(t, func(t *rapid.T) {
+		d := NewDisk(9000)
+		d.SetRecord(false)
+		w, err := setupWorld(rapid.Bool().Draw(t, "unstable"), false, d)
+		if err != nil {
+			t.Skip("setup failed")
+		}
+		if err := w.addExtras(160); err != nil {
+			t.Skip("setup failed")
+		}
+		w.S.Restart() // cold caches
+		var tag uint32
+		var progs [][]cOp
+		for c := 0; c < rapid.IntRange(1, 3).Draw(t, "writers"); c++ {
+			var prog []cOp
+			for i := 0; i < rapid.IntRange(4, 10).Draw(t, "nops"); i++ {
+				prog = append(prog, genCOp(t, cGenCfg{DataOps: true}, &tag))
+			}
+			progs = append(progs, prog)
+		}
+		for c := 0; c < rapid.IntRange(2, 6).Draw(t, "sweepers"); c++ {
+			var prog []cOp
+			for i := 0; i < rapid.IntRange(1, 3).Draw(t, "nsweeps"); i++ {
+				prog = append(prog, cOp{Kind: "sweep", Off: rapid.Uint64Range(0, 1000).Draw(t, "rotation")})
+			}
+			progs = append(progs, prog)
+		}
+		var yield uint64
+		if rapid.Bool().Draw(t, "yields") {
+			yield = rapid.Uint64Range(1, 1<<62).Draw(t, "yieldseed")
+		}
+		run := w.runConcurrent(progs, yield, false, 30*time.Second, nil)
+		if run.Slow || run.Hung {
+			St.Class("run_not_judged")
+			t.Skip("not judged here (C06's subject)")
+		}
+		w.S.Stop()
+		St.Eval(1)
+		St.NT(Hash("bigset", describeHistory(run.Ops)))
+		St.Class("program_with_a_working_set_larger_than_the_inode_cache")
+	})
+}
